@@ -37,13 +37,21 @@ pub struct Cfg {
     /// every `Restart` re-opens the directory under another bloom configuration (1 -> 4 -> 3 -> 1 ...: other bit count, other hasher count, with an
     /// occasional 0 = no bloom): closed blobs written under different configurations then share filter groups
     pub bloom_flip: bool,
+    /// name of the quarantine directory inside the work dir (None = pearl's default, "corrupted")
+    pub corrupted_dir: Option<String>,
+    /// permits of the semaphore given to Builder::set_dump_sem (None = pearl's own, one permit): with more than
+    /// one permit the blobs of a directory are opened (and their indexes regenerated) concurrently at init
+    pub dump_permits: Option<u8>,
 }
 
 impl Cfg {
+    pub fn corrupted_name(&self) -> &str {
+        self.corrupted_dir.as_deref().unwrap_or("corrupted")
+    }
     pub fn to_json(&self) -> Value {
         json!({"keylen": self.keylen, "bloom": self.bloom, "group": self.group, "allow_dup": self.allow_dup,
                "mt": self.mt, "validate_data": self.validate_data, "ignore_corrupted": self.ignore_corrupted,
-               "max_dirty": self.max_dirty, "key_salt": self.key_salt, "n_keys": self.n_keys, "n_meta": self.n_meta, "max_records": self.max_records, "auto_rotate": self.auto_rotate, "bloom_flip": self.bloom_flip, "max_blob_size": self.max_blob_size, "deferred_ms": self.deferred_ms.map(|d| vec![d.0, d.1])})
+               "max_dirty": self.max_dirty, "key_salt": self.key_salt, "n_keys": self.n_keys, "n_meta": self.n_meta, "max_records": self.max_records, "auto_rotate": self.auto_rotate, "bloom_flip": self.bloom_flip, "max_blob_size": self.max_blob_size, "deferred_ms": self.deferred_ms.map(|d| vec![d.0, d.1]), "corrupted_dir": self.corrupted_dir, "dump_permits": self.dump_permits})
     }
     pub fn from_json(v: &Value) -> Option<Cfg> {
         Some(Cfg {
@@ -63,12 +71,14 @@ impl Cfg {
             bloom_flip: v.get("bloom_flip").and_then(|x| x.as_bool()).unwrap_or(false),
             max_blob_size: v.get("max_blob_size").and_then(|x| x.as_u64()),
             deferred_ms: v.get("deferred_ms").and_then(|x| x.as_array()).and_then(|a| Some((a.first()?.as_u64()?, a.get(1)?.as_u64()?))),
+            corrupted_dir: v.get("corrupted_dir").and_then(|x| x.as_str()).map(|x| x.to_string()),
+            dump_permits: v.get("dump_permits").and_then(|x| x.as_u64()).map(|x| x as u8),
         })
     }
     pub fn default_for(n_keys: u16, n_meta: u8) -> Cfg {
         Cfg {
             keylen: 8, bloom: 1, group: 2, allow_dup: true, mt: true, validate_data: false,
-            ignore_corrupted: false, max_dirty: None, key_salt: 1, n_keys, n_meta, max_records: None, auto_rotate: false, bloom_flip: false, max_blob_size: None, deferred_ms: None,
+            ignore_corrupted: false, max_dirty: None, key_salt: 1, n_keys, n_meta, max_records: None, auto_rotate: false, bloom_flip: false, max_blob_size: None, deferred_ms: None, corrupted_dir: None, dump_permits: None,
         }
     }
 }
@@ -89,6 +99,8 @@ pub fn next_bloom_cfg(cur: u8, restarts: u64) -> u8 {
         1 => 4,
         4 => 3,
         3 if restarts % 3 == 0 => 0,
+        // pearl's default configuration (100 000 elements: a filter of several hundred KiB per blob)
+        3 if restarts % 3 == 1 => 2,
         3 => 1,
         _ => 1,
     }
@@ -314,6 +326,12 @@ pub fn builder_for(cfg: &Cfg, dir: &Path) -> Builder {
     }
     if cfg.auto_rotate {
         b = b.verif_debounce_interval_ms(0);
+    }
+    if let Some(name) = cfg.corrupted_dir.as_ref() {
+        b = b.corrupted_dir_name(name.clone());
+    }
+    if let Some(n) = cfg.dump_permits {
+        b = b.set_dump_sem(std::sync::Arc::new(tokio::sync::Semaphore::new(n as usize)));
     }
     b
 }
